@@ -1,12 +1,12 @@
 CONSTANTS
   KINDS = {"cbc", "pcbc", "ige", "cfb", "cfb8", "ofbblk"}
-  DIRS = {"enc", "dec"}
+  DIRS = {"dec"}
   BS = 2
   W = 2
   MAXU = 3
-  OBJS = {"a", "c"}
-  PROP = "C16"
-  PERT = {1}
+  OBJS = {"a", "b"}
+  PROP = "C15"
+  PERT = {1, 2}
 SPECIFICATION Spec
-INVARIANTS C16 C02 C03 NoJunk EmitReplay
+INVARIANTS C15 C02 C03 NoJunk EmitReplay
 CHECK_DEADLOCK FALSE
